@@ -115,48 +115,78 @@ def run_jobs(prop, mspec, tr):
         return out
     # ---- jobs -----------------------------------------------------------------------------------
     budget = mspec.get("budget_s", {}).get(tr, 240 if tr == "quick" else 1500)
-    deadline = time.time() + budget
-    tasks = []
-    for modname, fname, kwargs in mspec["jobs"](tr):
-        kw = dict(kwargs)
-        kw["deadline"] = deadline
-        tasks.append((modname, fname, kw))
-    results = []
+    if os.environ.get("VERIF_BUDGET_S"):
+        budget = int(os.environ["VERIF_BUDGET_S"])          # explicit override of the tier's time budget
     expand_n = mspec.get("expand_paths", 60)
     chunk = mspec.get("chunk", 4)
     slice_s = mspec.get("slice_s", 12)
     from collections import deque
-    queue = deque((m, f, dict(kw, bfs=True, max_paths=expand_n)) for m, f, kw in tasks)
-    base = {id(t): t for t in tasks}
-    inflight = []
-    with mp.get_context("fork").Pool(16, initializer=_worker_init, initargs=(prep["mir"], REPO)) as pool:
-        # Work list scheduling: every task explores for at most `slice_s` seconds and returns the
-        # sub-trees it did not reach; those are re-queued in small chunks (dynamic balancing).
-        while queue or inflight:
-            while queue and len(inflight) < 16:
-                t = queue.popleft()
-                inflight.append((t, pool.apply_async(_worker_run, (t,))))
-            still = []
-            progressed = False
-            for t, ar in inflight:
-                if not ar.ready():
-                    still.append((t, ar))
-                    continue
-                progressed = True
-                d = ar.get()
-                fr = d.get("extra", {}).pop("frontier", None) or []
-                results.append(d)
-                m, f, kw = t
-                kw2 = {k: v for k, v in kw.items() if k not in ("bfs", "max_paths", "initial")}
-                if time.time() < deadline:
-                    for i in range(0, len(fr), chunk):
-                        queue.append((m, f, dict(kw2, initial=fr[i:i + chunk], slice_s=slice_s)))
-                elif fr:
-                    d["incomplete"].append("time budget exhausted with %d unexplored sub-trees" % len(fr))
-            inflight = still
-            if not progressed:
-                time.sleep(0.05)
-    results = merge_by_name(results)
+
+    def explore(joblist, deadline):
+        """run one job list on the worker pool until it is done or the deadline has passed"""
+        tasks = []
+        for modname, fname, kwargs in joblist:
+            kw = dict(kwargs)
+            kw["deadline"] = deadline
+            tasks.append((modname, fname, kw))
+        results = []
+        queue = deque((m, f, dict(kw, bfs=True, max_paths=expand_n)) for m, f, kw in tasks)
+        inflight = []
+        with mp.get_context("fork").Pool(16, initializer=_worker_init, initargs=(prep["mir"], REPO)) as pool:
+            # Work list scheduling: every task explores for at most `slice_s` seconds and returns the
+            # sub-trees it did not reach; those are re-queued in small chunks (dynamic balancing).
+            while queue or inflight:
+                while queue and len(inflight) < 16:
+                    t = queue.popleft()
+                    inflight.append((t, pool.apply_async(_worker_run, (t,))))
+                still = []
+                progressed = False
+                for t, ar in inflight:
+                    if not ar.ready():
+                        still.append((t, ar))
+                        continue
+                    progressed = True
+                    d = ar.get()
+                    fr = d.get("extra", {}).pop("frontier", None) or []
+                    results.append(d)
+                    m, f, kw = t
+                    kw2 = {k: v for k, v in kw.items() if k not in ("bfs", "max_paths", "initial")}
+                    if time.time() < deadline:
+                        for i in range(0, len(fr), chunk):
+                            queue.append((m, f, dict(kw2, initial=fr[i:i + chunk], slice_s=slice_s)))
+                    elif fr:
+                        d["incomplete"].append("time budget exhausted with %d unexplored sub-trees" % len(fr))
+                inflight = still
+                if not progressed:
+                    time.sleep(0.05)
+        return merge_by_name(results)
+
+    if tr == "quick":
+        results = explore(mspec["jobs"]("quick"), time.time() + budget)
+    else:
+        # thorough = the quick job list in full (that is the claim, it must complete), then the
+        # deeper job list for the rest of the budget.  A deeper job that does not finish in time is
+        # reported as partially explored (paths, no violation) and is NOT claimed; it does not turn
+        # the verdict on what was explored into "inconclusive".
+        quick_jobs = mspec["jobs"]("quick")
+        qbudget = mspec.get("budget_s", {}).get("quick", 900)
+        results = explore(quick_jobs, time.time() + qbudget)
+        deeper = [j for j in mspec["jobs"]("thorough") if j not in quick_jobs]
+        remaining = budget - (time.time() - t0)
+        partial = []
+        if deeper and remaining > 60:
+            deep = explore(deeper, time.time() + remaining)
+            for d in deep:
+                d["name"] += " [thorough]"
+                timeouts = [i for i in d["incomplete"] if i.startswith("timeout after") or i.startswith("time budget exhausted")]
+                if timeouts:
+                    d["incomplete"] = [i for i in d["incomplete"] if i not in timeouts]
+                    d.setdefault("extra", {})["partial"] = timeouts[:3]
+                    partial.append(d["name"])
+            results += deep
+        elif deeper:
+            partial = ["(deeper job list not started: %d s left)" % int(remaining)]
+        out["summary"]["thorough_not_completed"] = partial
     # ---- aggregate -----------------------------------------------------------------------------
     funcs = set()
     jobs_summary = []
@@ -185,7 +215,8 @@ def run_jobs(prop, mspec, tr):
     # vacuity guard: a decode job must have seen both accepting and rejecting leaves
     for j in jobs_summary:
         need = mspec.get("need_both", True)
-        if need and j["job"].startswith("decode:") and (j["accepting"] == 0 or j["rejecting"] == 0):
+        if need and j["job"].startswith("decode:") and (j["accepting"] == 0 or j["rejecting"] == 0) \
+                and "partial" not in j.get("extra", {}):
             out["inconclusive"].append("%s: vacuous exploration (accepting=%d rejecting=%d)"
                                        % (j["job"], j["accepting"], j["rejecting"]))
     only = mspec.get("only_classes")
